@@ -39,9 +39,8 @@ pub struct Fs {
     pub fail_open: bool,
     pub fail_mkdir: bool,
     pub fail_mmap: bool,
-    /// sequence mode (open harness): the n-th `OpenOptions::open` yields file `n` (data file first,
-    /// then the regions file - the order of `Database::open_with_min_len`); `usize::MAX` = resolve the
-    /// file from the last bytes of the path
+    /// open-harness mode (any value but `usize::MAX`; counts the opens): resolve the file from the length of
+    /// the last path component; `usize::MAX` = resolve it from the last bytes of the path
     pub open_seq: usize,
 }
 
@@ -82,6 +81,22 @@ fn id_of(path: &Path) -> usize {
         REGIONS
     } else {
         OTHER
+    }
+}
+
+fn resolve(path: &Path) -> usize {
+    if state().open_seq != usize::MAX {
+        // open harness: the path stubs reduce every path to its last component, whose *length* is a
+        // constant for the solver even where its bytes are not ("data" / "regions"); independent of
+        // the order in which the code under test opens its files
+        state().open_seq += 1;
+        match path.as_os_str().len() {
+            4 => DATA,
+            7 => REGIONS,
+            _ => OTHER,
+        }
+    } else {
+        id_of(path)
     }
 }
 
@@ -126,7 +141,7 @@ impl File {
         if state().fail_open {
             return Err(err());
         }
-        let id = id_of(p.as_ref());
+        let id = resolve(p.as_ref());
         ghost::log(K::Open, id, 0, 0);
         Ok(File::verif_new(id))
     }
@@ -248,13 +263,7 @@ impl OpenOptions {
         if state().fail_open {
             return Err(err());
         }
-        let id = if state().open_seq != usize::MAX {
-            let i = state().open_seq;
-            state().open_seq = i + 1;
-            if i < NFILE { i } else { OTHER }
-        } else {
-            id_of(p.as_ref())
-        };
+        let id = resolve(p.as_ref());
         ghost::log(K::Open, id, self.truncate as usize, 0);
         if self.truncate {
             state().files[id].len = 0;
